@@ -296,7 +296,8 @@ def r32_3(ctx, m):
     """multinomial / biased progressive sampling: the candidate in the TRUE slot of select() is weighted by its own tree"""
     ctx.rule("R32.3", "candidate selection: in merge_trees and add_single_qp_to_tree the Bernoulli probability of the candidate in "
                       "the true slot of select() is expit(w_true - w_false) (unbiased) or min(1, exp(w_true - w_false)) (biased), "
-                      "with w the log-weight of the tree each candidate comes from; the merged log-weight is logaddexp of both", floor=5)
+                      "with w the log-weight of the tree each candidate comes from (log-weights are never exponentiated individually); the "
+                      "merged log-weight is logaddexp of both", floor=5)
     mt = m.func(MOD, "merge_trees")
     ctx.saw_func(mt)
     bias = mt.params()[4] if len(mt.params()) >= 5 else None
@@ -388,6 +389,16 @@ def _selection_check(ctx, fi, key, sp_env, biased):
             one, ex = ex, one
         if _const(one) == 1 and isinstance(ex, ast.Call) and call_name(ex) == "exp" and len(ex.args) == 1:
             diff, form = ex.args[0], "min1exp"
+    if diff is None:
+        # a ratio of individually exponentiated log-weights is the same number on paper but not in floating point
+        pin = inline_at(cfg, rd, n.id, p, depth=3)
+        bare = [x for x in ast.walk(pin) if isinstance(x, ast.Call) and call_name(x) == "exp" and len(x.args) == 1
+                and not (isinstance(x.args[0], ast.BinOp) and isinstance(x.args[0].op, ast.Sub))]
+        if bare and any(isinstance(x, ast.BinOp) and isinstance(x.op, ast.Div) for x in ast.walk(pin)):
+            ctx.bad("R32.3", key, f"P(true slot) = {src(pin)}: the log-weight `{src(bare[0].args[0])}` is exponentiated on its own; "
+                                  "for |log-weight| beyond ~709 the ratio is 0/0 or inf/inf = NaN and bernoulli(NaN) is always False "
+                                  "(the weights are only defined up to a common factor, so only exp of a DIFFERENCE is admissible)", fi, c)
+            return
     if diff is None or not (isinstance(diff, ast.BinOp) and isinstance(diff.op, ast.Sub)):
         ctx.und("R32.3", key, f"probability `{src(p)}` not of the form expit(a-b) / minimum(1, exp(a-b))", fi)
         return
@@ -415,8 +426,8 @@ def _selection_check(ctx, fi, key, sp_env, biased):
 def r32_4(ctx, m):
     """PRNG key discipline"""
     from ..util import find_nodes
-    ctx.rule("R32.4", "PRNG keys: within a function a key is consumed at most once per binding along every path (split, draw, or "
-                      "handed to a callee), and no closure mapped over pytree leaves / loop iterations consumes a captured key "
+    ctx.rule("R32.4", "PRNG keys: within a function a key is consumed at most once per binding along every path (split, draw, "
+                      "handed to a callee - also inside a tuple - or returned to the caller), and no closure mapped over pytree leaves / loop iterations consumes a captured key "
                       "(every leaf would see the same stream)", floor=12)
     import re
     keyre = re.compile(r"^(sub)?key(s)?(_|$)|_key$")
@@ -561,11 +572,24 @@ def _count_consumes(root, k):
             continue
         if isinstance(x, ast.Call):
             for a in list(x.args) + [kw.value for kw in x.keywords]:
-                if isinstance(a, ast.Name) and a.id == k and id(a) not in skip:
-                    cnt += 1
-                if isinstance(a, ast.Starred) and isinstance(a.value, ast.Name) and a.value.id == k:
-                    cnt += 1
+                cnt += _key_leaves(a, k, skip)
+    # a key that leaves the function in its return value is handed to the caller: that is a use of the binding as well
+    if isinstance(root, ast.Return) and root.value is not None:
+        cnt += _key_leaves(root.value, k, skip)
     return cnt
+
+
+def _key_leaves(a, k, skip):
+    """occurrences of the key name as the argument itself or as a leaf of a tuple/list display"""
+    if id(a) in skip:
+        return 0
+    if isinstance(a, ast.Name):
+        return 1 if a.id == k else 0
+    if isinstance(a, ast.Starred):
+        return _key_leaves(a.value, k, skip)
+    if isinstance(a, (ast.Tuple, ast.List)):
+        return sum(_key_leaves(e, k, skip) for e in a.elts)
+    return 0
 
 
 def r32_5(ctx, m):
@@ -623,6 +647,10 @@ def r32_5(ctx, m):
             v = dn.ast.value
             if isinstance(v, ast.Call) and call_name(v) == "where" and len(v.args) == 3 and "isnan" in src(v.args[0]):
                 guard_consts.append((v.args[1], dn))
+            elif isinstance(v, ast.Call) and call_name(v) == "nan_to_num" and v.args:
+                # numpy semantics: NaN -> `nan` keyword (default 0.0)
+                nk = [k.value for k in v.keywords if k.arg == "nan"]
+                guard_consts.append((nk[0] if nk else ast.Constant(value=0.0), dn))
             elif isinstance(v, ast.BinOp) and isinstance(v.op, ast.Sub):
                 at = (v, dn)
     if at is None:
